@@ -61,6 +61,7 @@ class MockCA:
             authz_status={}, authz_perm=None, chall_perm=None, eab_keys={}, require_eab=False,
             delay=None, validate=None, tls=None, seed=0, tos=True, orders_field=True,
             cert_san_override=None, wildcard_field=True, port=0, bind="127.0.0.1", host=None,
+            unknown_members=False, # every object carries members RFC 8555 does not define (clients must ignore them)
             retry_after=None,      # value of a Retry-After header on the answers to authorization / order polls (RFC 8555 7.5.1)
         )
         self.o.update(o)
@@ -363,6 +364,8 @@ class MockCA:
         return "unknown", None
 
     def _json(self, status, obj, extra=None, nonce=True, ctype="application/json"):
+        if self.o["unknown_members"] and isinstance(obj, dict) and 200 <= status < 300:
+            obj = dict(obj, **{"x-verif-unknown": {"nested": [1, "two", None]}, "zz-another": "value"})
         hd = {"Content-Type": ctype}
         if nonce:
             hd["Replay-Nonce"] = self.new_nonce()
